@@ -637,7 +637,9 @@ func checkC18(c *lib.Ctx) {
 	r.Rule = "request streams: (mixed) PRNG pipelines of depth 1…30 over all request kinds incl. failing ones; (read-lengths) READs of length 0, 1, 2, 32767…32769, 65535…65537, 100000, 262130…262132 (= page − 13 ± 1), 262143, 262144 and 300000 under max-tx-packet 32768 (default), 65536, 262131 and 262144, some crossing or past end of file; (writes) WRITEs up to the largest frame (262122 bytes); (held) 24…64 READs with one request held back while all others complete; (paths) path requests of every kind in relative and absolute form between READs. (attrs) requests that carry an attribute block — SETSTAT / FSETSTAT with PRNG subsets of size, owner, permissions, times and extended pairs and PRNG values, OPEN and MKDIR with attributes, names of 4…170 bytes — standing in line behind a command request whose call is held (request server: STAT, LSTAT, MKDIR, READLINK, REMOVE, FSTAT, READDIR; os-backed: FSTAT, READDIR), followed by 1…3 more requests of different frame lengths (READ, WRITE of 1…5000 bytes, REALPATH of 30…3000 bytes, SETSTAT, LSTAT, RENAME) and by the LSTATs / FSTATs that show the outcome; gated with the command kept back as long as anything else can return, and once more serial / un-gated / with PRNG handler durations / gated fifo or uniform. Server options: every stream is run on servers started with ReadOnly() x WithServerWorkingDirectory (os-backed; a read-only server refuses every modifying request — WRITEs of 0 … 262122 bytes among them — with PERMISSION_DENIED before any handler runs, the page of the request frame must come back all the same) resp. WithStartDirectory (request server), paths then sent relative (one in four absolute); the mixed family on the request server also with handler sets lacking optional interfaces; quick: the combinations rotate over the streams of a family and the length sweep runs under every one, thorough: every stream of the read-lengths, writes, held and paths families under every combination. Each stream is run serially (request after reply), pipelined un-gated, pipelined with PRNG handler durations, and pipelined with every instrumented call held and released in a chosen order (fifo, lifo, uniform, earliest-held-longest, hold-request-k) — each time against the server WITHOUT and WITH the allocator, same scratch tree and same forced order. Besides the reply bytes the EFFECTS of the two runs are compared: on the request server what every command and open handler was shown (Request.Method, paths, Flags, AttrFlags(), Attributes(), raw Attrs; read after the call was let go), on the os-backed server kind / permissions / size / owner / modification time of every object the requests name once Serve has returned. Page discipline while requests wait: in every gated run, whenever the pipeline has taken in the whole stream, pages in use >= unanswered requests + 1 must hold (each unanswered request owns the page of its frame, the receive loop one more). A case = (server, stream, mode, order) = one pair of runs; non-trivial = at least one DATA reply or at least two requests in flight; distinct by (server, options, program, mode, order). " +
 		"SESSIONS (scenarios of steps over one to three sessions, executed by one goroutine; each run without and with the allocator; compared: the complete reply stream of every session, who ended it and what Serve returned, the effects — request server: every handler call with its data, os-backed: kind, permissions, size and content digest of every object named — and the allocator tables after Serve): " +
 		"(malformed-frames) a session opens five handles, sends 1…3 bursts of 1…6 well-formed WRITEs of 2000…32768 PRNG-like bytes and READs (every reply awaited: the pages now hold recognisable bytes), then ONE CHANGED FRAME, alone, whose outer length is right and whose inside is not: for each of 26 request shapes (WRITE with 0 / 8 / 1000 data bytes, READ, FSTAT, READDIR, CLOSE, FSETSTAT and SETSTAT with extended pairs, fsync, STAT, LSTAT, OPENDIR, OPEN, OPEN with attributes, MKDIR with attributes, REMOVE, RMDIR, REALPATH, READLINK, RENAME, SYMLINK, statvfs, posix-rename, hardlink, unknown extension) every word that says how much follows — string / data lengths, attribute flags, extended count — set to v+1, v+7, v+1492, v+100000, (bytes present)+1, 2v+1, v-1, 0, 262144, 2^31-1, 2^32-1, v|0x8000000f; the last 1…13 bytes cut off; only the first 0…12 bytes kept; 1…100000 trailing bytes; 15 frames that are no request (empty frame, length word above the maximum, unknown and reply types, INIT again); the change is answered or the server ends the session; where it goes on, READs of the region a WRITE was aimed at and of known content follow; then the handles are closed and the input ends (some sessions: inside a frame). quick: every change of the three WRITE shapes, a PRNG sample of 110 of the others per server (os-backed: 25 more on a read-only server), sessions with 2…3 changed frames, under rotating ReadOnly / working directory options; thorough: every change under every option combination. " +
-		"(reused-option-values) the option list — WithAllocator / WithRSAllocator (the pair compared), WithMaxTxPacket, ReadOnly, working / start directory — is built ONCE and two or three servers are started from it (one run in six: values of their own, as a control); session 0 pipelines 3…10 READs of distinct contents with one of the first three calls held, so that the replies behind it wait in the server; a neighbour session on another server then answers at least as many requests (same order ids) and takes in a burst of 8…16 READs / WRITEs of up to 32768 bytes with the first 1…6 calls held (as many pages in use at once), variants: who is let go first, more traffic afterwards, the neighbour ending (Serve frees its allocator) while session 0 waits and a third server starting after that, two waiting sessions; besides the off/on comparison every session is run once more ALONE on a server of freshly built option values (allocator off) and must be answered the same (servers built from one option value share no state)"
+		"(reused-option-values) the option list — WithAllocator / WithRSAllocator (the pair compared), WithMaxTxPacket, ReadOnly, working / start directory — is built ONCE and two or three servers are started from it (one run in six: values of their own, as a control); session 0 pipelines 3…10 READs of distinct contents with one of the first three calls held, so that the replies behind it wait in the server; a neighbour session on another server then answers at least as many requests (same order ids) and takes in a burst of 8…16 READs / WRITEs of up to 32768 bytes with the first 1…6 calls held (as many pages in use at once), variants: who is let go first, more traffic afterwards, the neighbour ending (Serve frees its allocator) while session 0 waits and a third server starting after that, two waiting sessions; besides the off/on comparison every session is run once more ALONE on a server of freshly built option values (allocator off) and must be answered the same (servers built from one option value share no state). " +
+		"(stored-data) what is written EARLY is read back LATE, on the request server over the package's own InMemHandler (which keeps what it is given to write) and on the os-backed server: a session makes 1…3 files (OPEN with creation, for writing or reading and writing, emptied or not) and writes them in one of seven shapes — one chunk at offset 0 of the empty file, 2…5 chunks in turn or pipelined, a longer chunk over a shorter one, a hole first and then a chunk at 0, truncation (FSETSTAT / SETSTAT size) and a new chunk at 0; chunk lengths 1…1500 bytes with the 20…28 bytes around the header of a WRITE, some of 4…8 KiB, few of 20000…65536 — leaves them open or closes them, then sends 0…40 requests of 18 kinds and frame lengths of 13 bytes … 30 KiB (WRITEs to another file, READs, STAT / LSTAT of short and of 200-byte names, REALPATH of 30…20000 bytes, READLINK, MKDIR with attributes, RENAME, REMOVE, SETSTAT with extended pairs, SYMLINK, OPEN / CLOSE of other files, FSTAT, OPENDIR + READDIR + CLOSE, unknown extension), one after the other or in bursts of 2…6 whose requests touch different objects, and only then reads every file back — through the handle it was written through or a newly opened one, whole, in pieces, beginning and end, with FSTAT and STAT / LSTAT of its size; one session in three appends to the files, sends more traffic and reads back again; start / working directory on every second session, max-tx-packet 65536 on one in four; quick 170 + 110 sessions, thorough 15 times as many. Times in ATTRS / NAME replies (the objects are made by the session) are not compared. " +
+		"(frame-limits) WELL-FORMED requests whose frame is exactly N bytes long, N at and around the limit of the receive path (262144 = the longest frame a server takes = the size of an allocator page): limit + d for d in −32768, −4096, −1000, −283…−277, −257…−255, −26…−21, −14…−12, −9, −8, −5…0, 1…5, 8, 9, 12…14, 17, 21…27, 30, 64, 100, 128, 255…257, 276…283, 300, 512, 1000, 1024, 4095…4097, 32768, 65536, 262143…262145, 786432 (the sizes of the header fields of a request, of the bytes in front of the data of a WRITE with handles of 1 … 256 bytes, whole pages) and a PRNG sample (thorough: all for the WRITE into a file, every third for the other requests) of d = −40 … 320; as a WRITE whose data fills the frame — into the middle of a file, as the single first chunk of an empty file, on a read-only server (refused) —, as REALPATH / READLINK whose path fills it, and as READ / FSTAT / unknown extension followed by trailing bytes; after PRNG primers (WRITEs and READs that leave recognisable bytes in the pages), every second session with a frame of a length the servers take first; where the server goes on, READs of both ends of the written region, FSTAT and a READ of known content follow; on the request server (instrumented handlers and InMemHandler) and the os-backed server (ReadOnly x working directory). Such a frame is written while the reply or the end of the server's output is awaited (a server that refuses a frame stops reading inside it). These sessions run in a process of their own; where that process dies, the scenario is run once more without the allocator, and the death is reported as the allocator's doing (alloc/server-dies/…) if it then runs through"
 	thorough := c.Tier == "thorough"
 	if t := gCurCfg(c, "c18", "11111:262144:32768"); len(t) >= 4 {
 		c18Bits = t[:4]
@@ -655,7 +657,7 @@ func checkC18(c *lib.Ctx) {
 		return st.Case.Prog.Server, st
 	}
 
-	var jobs []json.RawMessage
+	var jobs, limitJobs []json.RawMessage
 	if c.Replay != "" {
 		var st struct {
 			c18Stream
@@ -700,6 +702,18 @@ func checkC18(c *lib.Ctx) {
 			for _, st := range c18MalformedJobs(c.Rand, server, thorough) {
 				jobs = append(jobs, gJSON(st))
 			}
+		}
+		// What is written early is read back late (c18_store.go): the request server over the package's InMemHandler,
+		// which stores what it is given, and the os-backed server.
+		for _, server := range []string{"mem", "os"} {
+			for _, st := range c18StoreJobs(c.Rand, server, thorough) {
+				jobs = append(jobs, gJSON(st))
+			}
+		}
+		// Frames of every length around the limit of the receive path (c18_store.go); run in a process of their own: a
+		// server that dies on such a frame takes its process with it, and the batch is then run again case by case.
+		for _, st := range c18LimitJobs(c.Rand, thorough) {
+			limitJobs = append(limitJobs, gJSON(st))
 		}
 		for _, server := range []string{"rs", "os"} {
 			nMixed, nReads, nWrites, nHeld, nPaths := 150, 12, 12, 30, 16
@@ -806,7 +820,12 @@ func checkC18(c *lib.Ctx) {
 		}
 	}
 
-	sums := gRunBatches(c, "c18", jobs, 1000, modelOK, describe)
+	sums := gRunBatches(c, "c18", jobs, 1200, modelOK, describe)
+	if len(limitJobs) > 0 {
+		sums = append(sums, gRunBatches(c, "c18", limitJobs, map[bool]int{false: 1000, true: 400}[thorough], modelOK, describe)...)
+		jobs = append(jobs, limitJobs...)
+	}
+	c18AttributeDeaths(c, jobs, sums, describe)
 	gMerge(r, sums, 4)
 	if modelOK {
 		done, skipped := 0, 0
@@ -867,6 +886,40 @@ func checkC18(c *lib.Ctx) {
 	}
 	defer os.RemoveAll(top)
 	c18F10(c, top)
+}
+
+// c18AttributeDeaths: the process running a scenario (both runs of it) died. The scenario is run once more without
+// the allocator only; if it runs through, the death is the allocator's doing and the failure says so.
+func c18AttributeDeaths(c *lib.Ctx, jobs []json.RawMessage, sums []gSummary, describe func(json.RawMessage) (string, any)) {
+	var idx []int
+	var again []json.RawMessage
+	for i := range sums {
+		if i >= len(jobs) || len(sums[i].Hist) != 1 || sums[i].Hist[0] != "child-died" || len(sums[i].Fails) != 1 {
+			continue
+		}
+		var st c18Stream
+		if json.Unmarshal(jobs[i], &st) != nil || st.Scn == nil {
+			continue
+		}
+		scn := *st.Scn
+		scn.Only = "off"
+		st.Scn = &scn
+		idx, again = append(idx, i), append(again, gJSON(st))
+	}
+	if len(again) == 0 {
+		return
+	}
+	res := gRunBatches(c, "c18", again, 1000, false, describe)
+	for k, i := range idx {
+		if k >= len(res) || res[k].NotRun || len(res[k].Fails) != 0 {
+			continue
+		}
+		server, _ := describe(jobs[i])
+		f := &sums[i].Fails[0]
+		f.Key = "alloc/server-dies/" + server
+		f.What = "only with the allocator (the same scenario runs through on servers without it): " + f.What
+		sums[i].Hist = append(sums[i].Hist, "child-died/only-with-allocator")
+	}
 }
 
 // ---- F10: READ longer than a page with max-tx-packet above the page size (run in a child: the worker panics) ----
